@@ -119,6 +119,25 @@ func (c *c19) script(seed int64, base time.Duration, record *[]string) (received
 			*record = append(*record, s)
 		}
 	}
+	// a slow reader: the trigger was taken off the channel, its action runs later (after other registrations)
+	type heldTrig struct {
+		tr *interfaces.ElectionTrigger
+		m  *armRec
+	}
+	var held []heldTrig
+	runAction := func(tr *interfaces.ElectionTrigger, m *armRec, late bool) {
+		mu.Lock()
+		before := len(cbCalls)
+		mu.Unlock()
+		tr.MoveToNextLeader()
+		mu.Lock()
+		calls := append([]string{}, cbCalls[before:]...)
+		mu.Unlock()
+		want := fmt.Sprintf("%d:%d/%d", m.id, m.h, m.v)
+		if len(calls) != 1 || calls[0] != want {
+			c.bad("trigger-action-does-not-call-the-registered-handler-with-its-pair", fmt.Sprintf("seed=%d: the action of trigger %s (run %s) invoked %v, want [%s] (handler id : height/view)", seed, tr.Hv, map[bool]string{false: "at once", true: "after later registrations"}[late], calls, want))
+		}
+	}
 	onTrigger := func(tr *interfaces.ElectionTrigger, now time.Time) {
 		received++
 		mu.Lock()
@@ -140,16 +159,14 @@ func (c *c19) script(seed int64, base time.Duration, record *[]string) (received
 		if el := now.Sub(m.at); el < et.CalcTimeout(primitives.View(m.v)) {
 			c.bad("trigger-before-timeout", fmt.Sprintf("seed=%d base=%v: trigger %s after %v, timeout is %v", seed, base, tr.Hv, el, et.CalcTimeout(primitives.View(m.v))))
 		}
-		// the trigger's action must invoke the handler registered with that arming, with exactly that pair
-		before := len(cbCalls)
-		tr.MoveToNextLeader()
-		mu.Lock()
-		calls := append([]string{}, cbCalls[before:]...)
-		mu.Unlock()
-		want := fmt.Sprintf("%d:%d/%d", m.id, m.h, m.v)
-		if len(calls) != 1 || calls[0] != want {
-			c.bad("trigger-action-does-not-call-the-registered-handler-with-its-pair", fmt.Sprintf("seed=%d: trigger %s invoked %v, want [%s]", seed, tr.Hv, calls, want))
+		// the trigger's action must invoke the handler registered with that arming, with exactly that pair — also when the
+		// reader runs it only after the timer has been armed for other pairs
+		if r.Intn(3) == 0 {
+			held = append(held, heldTrig{tr, m})
+			log(fmt.Sprintf("hold %s", tr.Hv))
+			return
 		}
+		runAction(tr, m, false)
 	}
 	steps := 3 + r.Intn(7)
 	for s := 0; s < steps; s++ {
@@ -214,6 +231,44 @@ func (c *c19) script(seed int64, base time.Duration, record *[]string) (received
 		}
 	}
 	et.Stop()
+	for _, x := range held {
+		runAction(x.tr, x.m, true)
+	}
+	return
+}
+
+// absentReader: the timer is armed and nobody reads the election channel for `absence` (far beyond the timeout); no
+// Register / Stop happens meanwhile. The trigger must still be delivered, once, when the reader comes back.
+func (c *c19) absentReader(seed int64, base, absence time.Duration) (ok bool) {
+	r := rand.New(rand.NewSource(seed))
+	et := Electiontrigger.NewTimerBasedElectionTrigger(base, nil)
+	h, v := uint64(1+r.Intn(3)), uint64(r.Intn(3))
+	called := 0
+	et.RegisterOnElection(primitives.BlockHeight(h), primitives.View(v), func(hh primitives.BlockHeight, vv primitives.View, _ interfaces.OnElectionCallback) {
+		if uint64(hh) == h && uint64(vv) == v {
+			called++
+		}
+	})
+	time.Sleep(absence)
+	select {
+	case tr := <-et.ElectionChannel():
+		if uint64(tr.Hv.Height()) != h || uint64(tr.Hv.View()) != v {
+			c.bad("trigger-without-matching-arming", fmt.Sprintf("absent reader: armed %d/%d, received %s", h, v, tr.Hv))
+		}
+		tr.MoveToNextLeader()
+		if called != 1 {
+			c.bad("trigger-action-does-not-call-the-registered-handler-with-its-pair", fmt.Sprintf("absent reader: handler calls=%d", called))
+		}
+		ok = true
+	case <-time.After(et.CalcTimeout(primitives.View(v)) + 10*time.Second):
+		c.bad("armed-timer-never-delivered", fmt.Sprintf("seed=%d base=%v: timer armed for %d/%d, never superseded or stopped; the reader was away for %v (timeout %v) and waited 10 s more: no trigger", seed, base, h, v, absence, et.CalcTimeout(primitives.View(v))))
+	}
+	select {
+	case tr := <-et.ElectionChannel():
+		c.bad("trigger-without-matching-arming", fmt.Sprintf("absent reader: a second trigger %s for one arming", tr.Hv))
+	case <-time.After(20 * base):
+	}
+	et.Stop()
 	return
 }
 
@@ -245,6 +300,29 @@ func CheckC19Unit(run *harness.Run) ([]harness.Finding, map[string]interface{}) 
 			mu.Unlock()
 		}(i)
 	}
+	// absent readers (in parallel with each other): away for 1.1 .. 3.5 s (thorough: .. 12 s)
+	absent := run.Pick(8, 32)
+	absentOK := 0
+	for i := 0; i < absent; i++ {
+		wg.Add(1)
+		go func(i int) {
+			defer wg.Done()
+			sub := &c19{byRule: map[string]int{}}
+			away := 1100*time.Millisecond + time.Duration(i%8)*time.Duration(run.Pick(340, 1500))*time.Millisecond
+			ok := sub.absentReader(run.Seed*7919+int64(i), base, away)
+			mu.Lock()
+			if ok {
+				absentOK++
+			}
+			for _, f := range sub.findings {
+				c.byRule[f.Rule]++
+				if c.byRule[f.Rule] <= 3 {
+					c.findings = append(c.findings, f)
+				}
+			}
+			mu.Unlock()
+		}(i)
+	}
 	wg.Wait()
 	// no timer goroutine may be left behind once every trigger was stopped
 	left := -1
@@ -266,6 +344,8 @@ func CheckC19Unit(run *harness.Run) ([]harness.Finding, map[string]interface{}) 
 		"triggers_received":          recv,
 		"triggers_judged":            judged,
 		"timer_goroutines_left":      left,
+		"absent_reader_scripts":      absent,
+		"absent_reader_delivered":    absentOK,
 		"unit_samples":               samples,
 		"unit_violations_by_rule":    c.byRule,
 	}
